@@ -1656,13 +1656,16 @@ class Project:
         if not os.path.exists(path):
             raise LookupError(f"Path does not exist: '{path}'.")
 
-        # Find the last match instance of a job id
-        results = list(re.finditer(JOB_ID_REGEX, path))
-        if len(results) == 0:
+        # Find the innermost path component that is a job id. A name that merely
+        # contains 32 hexadecimal characters in a row is not a job directory.
+        components = path.split(os.sep)
+        for index in reversed(range(len(components))):
+            if JOB_ID_REGEX.fullmatch(components[index]):
+                break
+        else:
             raise LookupError(f"Could not find a job id in path '{path}'.")
-        match = results[-1]
-        job_id = match.group(0)
-        job_path = path[: match.end()]
+        job_id = components[index]
+        job_path = os.sep.join(components[: index + 1])
 
         # Find a project *above* the path (avoid finding nested projects)
         project = cls.get_project(os.path.join(job_path, os.pardir))
